@@ -22,7 +22,10 @@ ASSUMPTIONS = ["str() / repr() of parts, conditions and types is supplied by the
                "anchor_root is caller-supplied id text inserted as it is; anchors are drawn from [A-Za-z0-9_-]+"]
 
 META = ["<b>bold</b>", "a & b", 'say "hi"', "it's", "`code`", "x `a<b` y", "plain", "tick ` alone", "`a`\n`b`", "<script>alert(1)</script>",
-        "a`b`c`d", "``", "é → ü", "1 < 2 > 0"]
+        "a`b`c`d", "``", "é → ü", "1 < 2 > 0",
+        # long texts whose code span straddles any plausible cut-off
+        "set it like this: `{'alpha': 1, 'beta': [1, 2, 3], 'gamma': {'x': 'y & z', 'w': '<b>'}, 'delta': None, 'epsilon': 2.5}` and go on",
+        "x " * 45 + "`code with blanks in it` " + "y " * 10]
 KEYS = ["a", "b", "k<1>", "x&y", 'q"t', "name", 0, 1, "é",
         # long sibling keys that differ only in the middle (any abbreviation of the text of a part would merge them)
         "temperature_at_inlet_of_reactor_kelvin", "temperature_at_outlet_of_reactor_kelvin"]
